@@ -46,6 +46,9 @@ POOL = [
     "$.l.accumulate($1 + $2).toList()", "max(1, $.n) + min(3, $.n)", "str($.n)",
     "sq($.n)", "$.l.select(sq($)).toList()", "addn($.n, 10)", "$.l.select(addn($, $.n)).sum()", "twice($.n) + sq(2)",
     "$.l.where(sq($) > 4).select(twice($)).toList()",
+    "$.l.orderBy(-$).toList()", "$.l.orderByDescending($).toList()", "$.ld.orderBy($.b).select($.a).toList()",
+    "$.ld.orderByDescending($.a).thenBy($.b).select($.b).toList()", "$.ll.orderBy($.len()).toList()", "$.l.orderBy($ mod 2).thenByDescending($).toList()",
+    "$.ld.groupBy($.a mod 2, $.b).toList()", "$.l.groupBy($ mod 2, $, $.sum()).toList()", "$.l.distinct($ mod 2).toList()", "$.ld.toDict($.a, $.b)",
     "describe($.n)", "describe($.t)", "describe($.l)", "$.l.select(describe($)).toList()", "[describe($.t), describe($.n)]",
     "calc('$1 + 1 + 100', $.n)", "calc('$1 * 2', $.n)", "calc('[$1, $1].len() + $1', $.n)", "calc('$1.len()', $.t)",
     "$.l.select(calc('$1 - 1', $)).toList()",
@@ -482,12 +485,22 @@ def oracle(run, deep):
         for di, d in enumerate(docs):
             base[(t, di)] = canon(make_job(st, d, shared, logs, False)())
     texts = sorted(stmts)
+    import re as _re
+    families = {}
+    for t in texts:
+        for name in set(_re.findall(r"([A-Za-z]\w*)\(", t)):
+            families.setdefault(name, []).append(t)
+    families = {k: v for k, v in families.items() if len(v) >= 2}
     rounds = run.n(250, 3000) * (3 if deep else 1)
     for _ in range(rounds):
         k = run.rng.choice([2, 3, 4])
         picks = [(run.rng.choice(texts), run.rng.randrange(len(docs))) for _ in range(k)]
         if run.rng.random() < 0.4:
             picks[1] = (picks[0][0], picks[1][1])          # same statement in two threads
+        elif run.rng.random() < 0.6 and families:
+            # statements that go through the SAME library function (with other arguments, directions, documents)
+            fam = families[run.rng.choice(sorted(families))]
+            picks = [(run.rng.choice(fam), run.rng.randrange(len(docs))) for _ in range(k)]
         jobs = [make_job(stmts[t], docs[di], shared, logs, False) for t, di in picks]
         counts = [count_steps(j)[0] for j in jobs]
         sched = random_merge(run.rng, counts)
